@@ -6,7 +6,7 @@ import vcommon as v
 import crashengine as ce
 
 PROP = "C05"
-INV = ["Partition", "MetaMatches", "NoUnknownRegion", "RealCount"]
+INV = ["Partition", "MetaMatches", "NoUnknownRegion", "RealCount", "RealPartition"]
 
 
 def run(tier, seed):
